@@ -244,7 +244,11 @@ func (c *ServerChannel) EstablishSession(
 			negEncryptOpts = append(negEncryptOpts, v.(SessionEncryption))
 		}
 
-		if len(negCompOpts) > 1 || len(negEncryptOpts) > 1 {
+		// The negotiation is also required when the transport is not yet using any of the configured
+		// encryption options that it is able to provide (for instance, a TLS only server on a TCP connection)
+		mustNegotiateEncryption := len(negEncryptOpts) > 0 && !contains(negEncryptOpts, c.transport.Encryption())
+
+		if len(negCompOpts) > 1 || len(negEncryptOpts) > 1 || mustNegotiateEncryption {
 			// Negotiate the session options
 			if err = c.negotiateSession(ctx, negCompOpts, negEncryptOpts); err != nil {
 				return err
